@@ -454,11 +454,28 @@ def execute(trace, ctx):
                 removed.discard(gk)
         elif k == "addN":
             store_empty[0] = False
-            quads = [(T(s), T(p), T(o), garg(op, gi) if not (gi is None and op["uid"] % 2) else None) for s, p, o, gi in op["q"]]
-            (cg if via == "cg" else ds).addN(quads)
-            for s, p, o, gi in op["q"]:
-                model.setdefault(gkey(gi), set()).add((skey(s), skey(p), skey(o)))
-                removed.discard(gkey(gi))
+            if via == "view" and op["uid"] % 3 == 0:
+                # Graph.addN on a view; the graph of each quad is given as a Graph object of the same name that lives on
+                # ANOTHER store (and holds something else): the quads of the view's own name are taken, that object is not
+                gi0 = op["q"][0][3]
+                ctx.probe("addN-with-same-named-graph-of-another-store")
+
+                def foreign(gi):
+                    f = Graph(Memory(), gterm(gi))
+                    f.add((URIRef(EX + "foreign"), URIRef(EX + "p"), URIRef(EX + "foreign")))
+                    return f
+
+                Graph(store, gterm(gi0)).addN([(T(s), T(p), T(o), foreign(gi)) for s, p, o, gi in op["q"]])
+                for s, p, o, gi in op["q"]:
+                    if gkey(gi) == gkey(gi0):
+                        model.setdefault(gkey(gi), set()).add((skey(s), skey(p), skey(o)))
+                        removed.discard(gkey(gi))
+            else:
+                quads = [(T(s), T(p), T(o), garg(op, gi) if not (gi is None and op["uid"] % 2) else None) for s, p, o, gi in op["q"]]
+                (cg if via == "cg" else ds).addN(quads)
+                for s, p, o, gi in op["q"]:
+                    model.setdefault(gkey(gi), set()).add((skey(s), skey(p), skey(o)))
+                    removed.discard(gkey(gi))
         elif k == "remove":
             t = op["t"]
             pat = (T(t[0]), T(t[1]), T(t[2]))
